@@ -2,15 +2,15 @@ SPECIFICATION Spec
 CONSTANTS
   KeyNames = {"k1"}
   Secrets = {"s1"}
-  Algs = {"hmac-sha384-192"}
-  Fudges = {2}
-  Skews <- MCSkews4
-  Errors = {0}
-  Kinds = {"stream"}
+  Algs <- MCAllAlgs
+  Fudges = {0, 2}
+  Skews <- MCSkews6
+  Errors = {0, 16}
+  Kinds = {"query", "response"}
   MaxEnv = 3
   MaxFaults = 1
-  MaxResign = 0
-  ResignMods = {"body"}
+  MaxResign = 1
+  ResignMods = {"none", "id", "head", "body"}
 INVARIANT TypeOK
 INVARIANT GenuineAccepted
 INVARIANT AlteredRefused
